@@ -180,7 +180,7 @@ func (c *Case) precLevel(s string) int {
 func (c *Case) effPrec(r Rule) (sym string, agreed bool) {
 	if r.Prec != "" {
 		if c.precLevel(r.Prec) == 0 {
-			return "", false // %prec naming a symbol without precedence: not produced by generators
+			return "", true // %prec naming a symbol without precedence level: the rule has no precedence
 		}
 		return r.Prec, true
 	}
@@ -313,7 +313,15 @@ func (c *Case) Render(o RenderOpts) string {
 		}
 		sb.WriteString(symText(t.Sym()))
 		if t.Num != 0 {
-			sb.WriteString(fmt.Sprintf(" %d", t.Num))
+			// the number is a decimal numeral, with or without leading zeros; a comment may sit directly in front of it
+			switch idHash(c.ID+"n") % 4 {
+			case 1:
+				sb.WriteString(fmt.Sprintf(" %05d", t.Num))
+			case 2:
+				sb.WriteString(fmt.Sprintf("/*%s*/%d", strings.ToLower(t.Name), t.Num))
+			default:
+				sb.WriteString(fmt.Sprintf(" %d", t.Num))
+			}
 		}
 	}
 	if len(c.Tokens) > 0 {
@@ -573,6 +581,9 @@ func GenRandom(r *rand.Rand, id string, k Knobs) *Case {
 		for i := range c.Rules {
 			if r.Float64() < k.PRulePrec {
 				c.Rules[i].Prec = withPrec[r.Intn(len(withPrec))]
+				if r.Intn(5) == 0 { // %prec may name a token that has no precedence level: the rule then has none
+					c.Rules[i].Prec = ts[r.Intn(len(ts))]
+				}
 			}
 		}
 	}
@@ -975,6 +986,9 @@ func GenLong(r *rand.Rand, id string) *Case {
 		c.Tokens = append(c.Tokens, Tok{Name: t})
 	}
 	n := 10 + r.Intn(5)
+	if r.Intn(3) == 0 {
+		n = 16 + r.Intn(6) // dot positions beyond 15
+	}
 	var rhs []string
 	for i := 0; i < n; i++ {
 		if r.Intn(4) == 0 {
